@@ -4,6 +4,7 @@ import concurrent.futures
 import json
 import os
 import random
+import shutil
 import sys
 
 from . import absmodel, core, envgen, gen_traced, tlc
@@ -339,6 +340,43 @@ def stat_runs(seed, tier):
                 S.frames.clear()
         lo, hi = binom_interval(n2, 1.0 / rate)
         out.append({"rate": rate, "n": n2, "traced": cnt[0], "lo": lo, "hi": hi, "code_filter": False})
+    # many functions, each called only a few times (a per-function effect - first call, warm-up - shows here and not in a
+    # hot loop over one function)
+    nf, reps = (400, 2) if tier == "quick" else (4000, 3)
+    d = tlc.scratch_dir("mtverif_many_")
+    try:
+        mpath = os.path.join(d, "mtx_many_%d.py" % os.getpid())
+        with open(mpath, "w") as fh:
+            fh.write("".join("def fn%d(a):\n    return a\n\n\n" % i for i in range(nf)))
+        for rate in (2, 10):
+            ns = {}
+            with open(mpath) as fh:
+                exec(compile(fh.read(), mpath, "exec"), ns)          # fresh code objects for every rate
+            funcs = [ns["fn%d" % i] for i in range(nf)]
+            ns["__name__"] = "mtx_many"
+            for f2 in funcs:
+                f2.__module__ = "mtx_many"
+            sys.modules["mtx_many"] = type(sys)("mtx_many")
+            sys.modules["mtx_many"].__dict__.update({f2.__name__: f2 for f2 in funcs})
+            random.seed(seed * 1000 + 700 + rate)
+            cnt = [0]
+
+            class L3:
+                def log(self, t):
+                    cnt[0] += 1
+
+                def flush(self):
+                    pass
+            with mtt.trace_calls(L3(), 0, lambda code: code.co_filename == mpath, rate):
+                for _ in range(reps):
+                    for f2 in funcs:
+                        f2(1)
+            sys.modules.pop("mtx_many", None)
+            lo, hi = binom_interval(nf * reps, 1.0 / rate)
+            out.append({"rate": rate, "n": nf * reps, "traced": cnt[0], "lo": lo, "hi": hi, "code_filter": True,
+                        "program": "%d functions called %d times each" % (nf, reps)})
+    finally:
+        shutil.rmtree(d, ignore_errors=True)
     return out
 
 
